@@ -43,6 +43,7 @@ def plan(tier, seed, kf_ids):
             for fa, fb in fams:
                 jobs.append(A.mul128("c01", s, f, fa, fb, timeout=3000))
     return {
+        "engine_m": True,
         "feature": "c01",
         "jobs": jobs,
         "functions": ["arith.rs: MulDivOverflow::{mul_overflow,div_overflow} for u8..u64,i8..i64 (mul_div_widen) and "
